@@ -628,6 +628,7 @@ func checkC15(c *ev.Ctx) {
 		}
 	})
 	c15Stale(c, base)
+	c15Related(c, base)
 	// round trips for all presets and both formats, with interop
 	type rt struct {
 		f string
@@ -872,6 +873,140 @@ func c15Stale(c *ev.Ctx, base string) {
 			}
 		} else if (res.Exit == 0) != complete {
 			viol("exit-status", fmt.Sprintf("exit status %d, target complete = %v", res.Exit, complete))
+		}
+	})
+}
+
+// c15Related runs gxz with arguments that are related to each other: the same file twice, a
+// symbolic link to another argument, a directory among the files.  The statement does not fix
+// every detail of these runs (is a link followed? is the second mention an error?), so only
+// what it does promise is judged: the content of every file is still recoverable (from its own
+// path or from its complete target), nothing is granted permission bits the input lacked, no
+// temporary file stays, and exit status 0 is only claimed when the target is complete.
+func c15Related(c *ev.Ctx, base string) {
+	type sc struct {
+		kind        string // twice, symlink, dir-first, dir-last
+		f           string
+		dec         bool
+		keep, force bool
+	}
+	var scs []sc
+	for _, kind := range []string{"twice", "symlink", "dir-first", "dir-last"} {
+		for _, f := range []string{"xz", "lzma"} {
+			for fl := 0; fl < 4; fl++ {
+				for _, dec := range []bool{false, true} {
+					scs = append(scs, sc{kind, f, dec, fl&1 != 0, fl&2 != 0})
+				}
+			}
+		}
+	}
+	par(len(scs), func(i int) {
+		s := scs[i]
+		id := fmt.Sprintf("related%d", i)
+		noteCase(id)
+		if !want(c, id) {
+			return
+		}
+		r := prng.New(c.Seed, 153, uint64(i))
+		dir := filepath.Join(base, id)
+		os.MkdirAll(dir, 0o755)
+		plain := gen.Data(r, "text", 5000)
+		in, inBytes, target := "doc", plain, "doc."+s.f
+		if s.dec {
+			in, target = "doc."+s.f, "doc"
+			inBytes = compressWith(s.f, plain)
+		}
+		os.WriteFile(filepath.Join(dir, in), inBytes, 0o640)
+		os.Chmod(filepath.Join(dir, in), 0o640)
+		var argv []string
+		if s.dec {
+			argv = append(argv, "-d")
+		}
+		if s.keep {
+			argv = append(argv, "-k")
+		}
+		if s.force {
+			argv = append(argv, "-f")
+		}
+		argv = append(argv, "-F", s.f)
+		switch s.kind {
+		case "twice":
+			argv = append(argv, in, in)
+		case "symlink":
+			ln := "link"
+			if s.dec {
+				ln = "link." + s.f
+			}
+			os.Symlink(in, filepath.Join(dir, ln))
+			argv = append(argv, ln, in)
+		case "dir-first":
+			os.Mkdir(filepath.Join(dir, "sub"), 0o755)
+			argv = append(argv, "sub", in)
+		default:
+			os.Mkdir(filepath.Join(dir, "sub"), 0o755)
+			argv = append(argv, in, "sub")
+		}
+		res := runGxz(c, dir, argv, inject{}, false, nil)
+		snap := dirSnapshot(dir)
+		modes := map[string]os.FileMode{}
+		for nme := range snap {
+			if fi, err := os.Lstat(filepath.Join(dir, nme)); err == nil && fi.Mode().IsRegular() {
+				modes[nme] = fi.Mode().Perm()
+			}
+		}
+		os.RemoveAll(dir)
+		if res.RunErr != "" || res.Exit < 0 {
+			c.Inconclusive(fmt.Sprintf("related-arguments scenario %s could not be run: %s", id, res.RunErr))
+			return
+		}
+		c.Eval(fmt.Sprintf("related %s d%v k%v f%v %s", s.kind, s.dec, s.keep, s.force, s.f), true)
+		c.Count("related_argument_runs", 1)
+		det := map[string]any{"case_id": id, "argv": argv, "exit": res.Exit, "stderr": clipStr(res.Stderr, 300), "directory_after": snapNames(snap)}
+		viol := func(sig, what string) {
+			det["what"] = what
+			c.Violation(sig, det)
+		}
+		complete := func(name string) bool {
+			b, ok := snap[name]
+			if !ok {
+				return false
+			}
+			if name == in || (s.dec && strings.HasSuffix(name, "."+s.f)) {
+				return bytes.Equal(b, inBytes) || (s.dec && decodesTo(s.f, b, plain))
+			}
+			if s.dec {
+				return bytes.Equal(b, plain)
+			}
+			return decodesTo(s.f, b, plain)
+		}
+		recoverable := false
+		for name := range snap {
+			if strings.HasSuffix(name, "/") {
+				continue
+			}
+			if complete(name) {
+				recoverable = true
+			}
+			if strings.HasSuffix(name, ".compress") || strings.HasSuffix(name, ".decompress") {
+				viol("temp-file-left", fmt.Sprintf("temporary file %q remains", name))
+			}
+			if md, ok := modes[name]; ok && md&^0o640 != 0 {
+				viol("permission-bits-granted", fmt.Sprintf("%q has mode %o, the input had 640", name, md))
+			}
+		}
+		if !recoverable {
+			viol("file-content", fmt.Sprintf("after the run no file holds the data any more (neither %q intact nor a complete %q)", in, target))
+		}
+		if tb, ok := snap[target]; ok && !complete(target) {
+			viol("file-content", fmt.Sprintf("target %q exists (%d bytes) but is not the complete result", target, len(tb)))
+		}
+		if res.Exit == 0 {
+			if _, ok := snap[target]; !ok || !complete(target) {
+				viol("exit-status", fmt.Sprintf("exit status 0 but the target %q is not complete", target))
+			}
+			if s.kind == "dir-first" || s.kind == "dir-last" {
+				viol("exit-status", "exit status 0 although a directory was among the arguments")
+			}
 		}
 	})
 }
